@@ -77,9 +77,9 @@ def utils_jobs(config='le', fallback=False):
     ow_get_fb = dict(ow_get, unwind=ow_get['loop'])
     ow_set_fb = dict(ow_set, unwind=ow_set['loop'])
     fb_get = Job('Avtp_GetField/K_get~unwinding-fallback', src_get, src, enforce='Avtp_GetField', owners=ow_get_fb, function='Avtp_GetField',
-                 kind='utils-fallback', config=config, timeout=1500, solver='kissat', unwind={'Avtp_GetField': 4}, bounded=FBTXT)
+                 kind='utils-fallback', config=config, timeout=1500, solver='kissat', unwind={'*repo*': 4}, bounded=FBTXT)
     fb_set = Job('Avtp_SetField/K_set~unwinding-fallback', src_set, src, enforce='Avtp_SetField', replace=['Avtp_GetField'], owners=ow_set_fb,
-                 function='Avtp_SetField', kind='utils-fallback', config=config, timeout=2400, solver='kissat', unwind={'Avtp_SetField': 4}, bounded=FBTXT)
+                 function='Avtp_SetField', kind='utils-fallback', config=config, timeout=2400, solver='kissat', unwind={'*repo*': 4}, bounded=FBTXT)
     jobs.append(Job('Avtp_GetField/K_get', src_get, src,
                     enforce='Avtp_GetField', loop_contracts=lc_get, owners=ow_get, function='Avtp_GetField',
                     kind='utils', config=config, timeout=900, solver='kissat', fallback=fb_get))
